@@ -115,10 +115,63 @@ fn len_class(d: &Desc, n: usize) -> u64 {
     }
 }
 
-struct Case {
-    si: usize,
-    input: Input,
-    place: Place,
+pub struct Case {
+    pub si: usize,
+    pub input: Input,
+    pub place: Place,
+}
+
+/// Corpus line: "<idx> <shape> <off> <place> <kind> <hex>" (inputs pre-generated natively so that
+/// interpreters only run the code under test).
+pub fn dump_corpus(ctx: &Ctx, n: u64, path: &str) {
+    use std::io::Write;
+    let ns = ctx.nshards.max(1);
+    let mut files: Vec<_> = (0..ns)
+        .map(|s| std::io::BufWriter::new(std::fs::File::create(format!("{}.{}", path, s)).expect("harness: cannot create corpus")))
+        .collect();
+    for idx in 0..n {
+        let c = gen_case(ctx, idx);
+        if c.si == usize::MAX {
+            break;
+        }
+        // zero-sized elements: a large length means a long (legitimate) loop, too slow for interpreters
+        if let Desc::Vec { elem, len } = &ctx.zoo[c.si].desc {
+            if elem.size() == 0 && c.input.bytes.len() >= len.size && read_uint(&c.input.bytes[..len.size], len.endian) > 64 {
+                continue;
+            }
+        }
+        let hexs = match crate::json::J::bytes(&c.input.bytes) {
+            J::Str(s) => s,
+            _ => String::new(),
+        };
+        let f = &mut files[(idx % ns) as usize];
+        let _ = writeln!(f, "{} {} {} {} {} {}", idx, c.si, c.input.off, if c.place == Place::Tail { "T" } else { "I" }, c.input.kind, if hexs.is_empty() { "-".to_string() } else { hexs });
+    }
+}
+
+fn leak_kind(k: &str) -> &'static str {
+    for c in ["random", "random-small", "valid", "valid-trunc", "valid-ext", "mut-len", "mut-offset", "mut-tag", "mut-bool", "mut-utf8", "flip", "sweep"] {
+        if c == k {
+            return c;
+        }
+    }
+    "corpus"
+}
+
+pub fn parse_corpus_line(line: &str) -> Option<(u64, Case)> {
+    let p: Vec<&str> = line.split(' ').collect();
+    if p.len() != 6 {
+        return None;
+    }
+    let bytes = if p[5] == "-" { Vec::new() } else { crate::json::hex_decode(p[5]) };
+    Some((
+        p[0].parse().ok()?,
+        Case {
+            si: p[1].parse().ok()?,
+            input: Input { bytes, off: p[2].parse().ok()?, kind: leak_kind(p[4]) },
+            place: if p[3] == "T" { Place::Tail } else { Place::Island },
+        },
+    ))
 }
 
 fn gen_case(ctx: &Ctx, idx: u64) -> Case {
@@ -181,21 +234,65 @@ pub fn run(ctx: &Ctx, rep: &mut Report) {
         rep.notes.push(format!("sweep_total={}", sweep_total(ctx)));
     }
     let total = if ctx.sub == "sweep" { sweep_total(ctx) } else { u64::MAX };
+    // corpus mode: this shard's pre-generated inputs, one per line, consumed lazily
+    let mut corpus_lines = match (&ctx.corpus, ctx.only) {
+        (Some(p), None) => {
+            use std::io::BufRead;
+            let f = std::fs::File::open(format!("{}.{}", p, ctx.shard % ctx.nshards)).expect("harness: cannot read corpus");
+            Some(std::io::BufReader::new(f).lines())
+        }
+        _ => None,
+    };
+    let lean = ctx.lite && ctx.prop == "C01" && (ctx.mode.starts_with("miri") || ctx.mode == "memcheck");
+    let (mut lean_gate, mut lean_ok, mut lean_err) = (0u64, 0u64, 0u64);
     ctx.for_cases(rep, |idx, rep| {
         if idx >= total {
             return;
         }
-        let case = gen_case(ctx, idx);
+        let case = match corpus_lines.as_mut() {
+            Some(lines) => loop {
+                match lines.next().and_then(|l| l.ok()).and_then(|l| parse_corpus_line(&l)) {
+                    Some((i, c)) if i == idx => break c,
+                    Some((i, _)) if i < idx => continue,
+                    _ => return,
+                }
+            },
+            None => gen_case(ctx, idx),
+        };
         if case.si == usize::MAX {
             return;
         }
         let vt = &ctx.zoo[case.si];
         let d = &vt.desc;
         let n = case.input.bytes.len();
-        let mut arena = Arena::new(n, case.input.off, case.place, mix(idx ^ 0xabc));
+        let mut arena = if lean { Arena::new_lean(n, case.input.off, case.place) } else { Arena::new(n, case.input.off, case.place, mix(idx ^ 0xabc)) };
         arena.fill_from(&case.input.bytes);
         let addr = arena.addr();
         rep.evaluations += 1;
+        if lean {
+            // interpreter mode: only the code under test runs; the interpreter is the monitor
+            let r1 = guarded(|| (vt.validate)(arena.slice()));
+            let r2 = guarded(|| (vt.from_bytes)(arena.slice(), &mut |_v| {}));
+            let r3 = guarded(|| (vt.from_mut_bytes)(arena.slice_mut(), &mut |_v| {}));
+            if n >= vt.min_size && addr % vt.align == 0 {
+                lean_gate += 1;
+            }
+            match &r1 {
+                Ok(Ok(())) => lean_ok += 1,
+                Ok(Err(_)) => lean_err += 1,
+                _ => {}
+            }
+            for (api, r) in [("validate", &r1), ("from_bytes", &r2), ("from_mut_bytes", &r3)] {
+                if let Err(p) = r {
+                    rep.violation(
+                        format!("{}|{}|panic|{}", ctx.prop, api, panic_site(p)),
+                        format!("{} on {} ({} bytes, kind {}) panicked: {}", api, vt.name, n, case.input.kind, p),
+                        case_json(ctx, idx).set("shape", J::s(vt.name)).set("panic", J::s(p.clone())),
+                    );
+                }
+            }
+            return;
+        }
         let cj = || {
             case_json(ctx, idx)
                 .set("shape", J::s(vt.name))
@@ -323,4 +420,9 @@ pub fn run(ctx: &Ctx, rep: &mut Report) {
         }
         rep.sample(6, || cj().set("outcome", J::s(outcome)));
     });
+    if lean {
+        rep.add("lean:passed-gate", lean_gate);
+        rep.add("lean:outcome:ok", lean_ok);
+        rep.add("lean:outcome:err", lean_err);
+    }
 }
